@@ -28,7 +28,7 @@ LEVEL_TEXT = (
 )
 LEVEL_NOTE = "Trusts the dump (all logs, time, costs, status). Which settings are saved is probed, not assumed."
 
-CFG = gen.Cfg(onesided=4, 
+CFG = gen.Cfg(onesided=4, servable=3, 
     facilities=True, max_time=[40], min_tasks=2, max_tasks=6, abs_max=15, chain_components=True,
     work_pool=[0.0, 0.5, 1.0, 1.0, 2.0, 2.0, 3.0],
 )
